@@ -734,6 +734,11 @@ class Table(Vector):
 			row_spec = key
 			col_spec = slice(None)
 
+		# The row key may be a live column of this very table (t[t.flag, :] = 0): the cells
+		# it addresses are the ones it names now, whichever column is written first
+		if isinstance(row_spec, Vector) and not isinstance(row_spec, Table):
+			row_spec = row_spec.copy()
+
 		# --- 2. Resolve Target Columns ---
 		# This replicates the lookup logic from __getitem__
 		target_indices = []
